@@ -18,8 +18,12 @@ CHECKS = {
             {"pkg": "cli_root", "entries": ["VerifC14Diff", "VerifC14DiffV1"], "params": {"N": 1, "COLOR": 1}},
             {"pkg": "cli_root", "entries": ["VerifC14Patch", "VerifC14Errors", "VerifC14PatchV1", "VerifC14Translate"], "params": {"N": 1}},
             {"pkg": "cli_root", "entries": ["VerifC14SetKeys", "VerifC14GitDriver", "VerifC14Yaml"], "params": {"N": 2, "KN": 1, "KM": 1}},
+            {"pkg": "cli_v2", "entries": ["VerifC14ErrMatrix"], "params": {"N": 1}},
+            {"pkg": "cli_root", "entries": ["VerifC14ErrMatrix"], "params": {"N": 1, "V1": 1}},
         ],
         "thorough": [
+            {"pkg": "cli_v2", "entries": ["VerifC14ErrMatrix"], "params": {"N": 2}},
+            {"pkg": "cli_root", "entries": ["VerifC14ErrMatrix"], "params": {"N": 2, "V1": 1}},
             {"pkg": "cli_v2", "entries": ["VerifC14Diff"], "params": {"N": 3, "COLOR": 1}},
             {"pkg": "cli_v2", "entries": ["VerifC14Diff"], "params": {"N": 1, "PRECISION": 1, "FORMATS": 1, "MODES": 1, "DOCS": 3}, "extra": ["-solver", "cvc5"]},
             {"pkg": "cli_v2", "entries": ["VerifC14Patch", "VerifC14Errors", "VerifC14Translate"], "params": {"N": 3}},
@@ -28,7 +32,7 @@ CHECKS = {
             {"pkg": "cli_root", "entries": ["VerifC14Diff", "VerifC14DiffV1"], "params": {"N": 2, "COLOR": 1}},
             {"pkg": "cli_root", "entries": ["VerifC14Patch", "VerifC14Errors", "VerifC14Translate", "VerifC14PatchV1"], "params": {"N": 2}},
         ],
-        "covers": ["c14.diff.files", "c14.diff.stdin", "c14.diff.outfile", "c14.patch", "c14.errors", "c14.translate.jd2patch", "c14.translate.patch2jd", "c14.translate.jd2merge", "c14.translate.merge2jd", "c14.v1diff.files", "c14.v1diff.stdin", "c14.v1diff.outfile", "c14.v1patch", "c14.setkeys", "c14.setkeys.bad", "c14.gitdriver", "c14.gitdriver.bad", "c14.yaml.diff", "c14.yaml.patch", "c14.yaml.json2yaml", "c14.yaml.yaml2json"],
+        "covers": ["c14.diff.files", "c14.diff.stdin", "c14.diff.outfile", "c14.patch", "c14.errors", "c14.translate.jd2patch", "c14.translate.patch2jd", "c14.translate.jd2merge", "c14.translate.merge2jd", "c14.v1diff.files", "c14.v1diff.stdin", "c14.v1diff.outfile", "c14.v1patch", "c14.setkeys", "c14.setkeys.bad", "c14.gitdriver", "c14.gitdriver.bad", "c14.yaml.diff", "c14.yaml.patch", "c14.yaml.json2yaml", "c14.yaml.yaml2json", "c14.errmatrix"],
         "outside": "PARTIAL: both binaries and the top-level binary with -v2=false, JSON input, and YAML input/output under a structural yaml.v2 model (numbers, arrays, objects with keys a,b; the character-level YAML questions are C16's and not applicable); -port and GitHub-action mode are not covered; process start-up, the real flag parser, files and stdio are models in the engine (the native replay runs the real binary)",
         "level_note": "PARTIAL claim (DESIGN.md section 7): main() of /repo/v2/jd and of /repo (with -v2 true and false) is executed in-process by the engine over models of flag, os, fmt, log and ioutil (flags registered by the real flag.X calls of the package initialiser, a model of flag.Parse, virtual files / stdin / stdout, os.Exit ends main); expected output and status are computed in the harness with library calls and the flag->option mapping of README.md. Counterexamples and sampled paths are replayed by running the real binary as a process.",
         "assumptions": ["CLI: package flag, os, fmt, log, ioutil are models (registered flags, model of flag.Parse incl. -x, -x=v, -x v, --; virtual files; os.Exit ends main); strconv.FormatFloat/ParseFloat round-trip exactly", "yaml.v2 is a structural model like encoding/json (numbers decode to float64 instead of int for integral values: jd's only consumer NewJsonNode converts both to the same number); concrete texts go through the real yaml.v2"],
@@ -132,8 +136,10 @@ CHECKS = {
             {"pkg": "v2", "entries": ["VerifC02Hunks"], "params": {"HUNKS": 2, "PAYLOADS": 1, "MULTI": 1}},
             {"pkg": "v2", "entries": ["VerifC02Hunks"], "params": {"HUNKS": 1, "PAYLOADS": 2, "MULTI": 1, "CTX2": 1}},
             {"pkg": "v2", "entries": ["VerifC02Color"], "params": {}},
+            {"pkg": "v2", "entries": ["VerifC02Big"], "params": {}},
         ],
         "thorough": [
+            {"pkg": "v2", "entries": ["VerifC02Big"], "params": {}},
             {"pkg": "v2", "entries": ["VerifC02Hunks"], "params": {"HUNKS": 2, "PAYLOADS": 1, "MULTI": 1, "CTX2": 1}},
             {"pkg": "v2", "entries": ["VerifC02Lib"], "params": {"N": 3, "FAMS": 1}},
             {"pkg": "v2", "entries": ["VerifC02Lib"], "params": {"N": 2}},
@@ -142,8 +148,8 @@ CHECKS = {
             {"pkg": "v2", "entries": ["VerifC02Hunks"], "params": {"HUNKS": 3, "PAYLOADS": 1, "MULTI": 1, "PATHS": 5}},
             {"pkg": "v2", "entries": ["VerifC02Color"], "params": {}},
         ],
-        "covers": ["c02.lib.none", "c02.lib.set", "c02.lib.multiset", "c02.lib.setkeys", "c02.lib.merge", "c02.hunks", "c02.color"],
-        "outside": "character-level escaping of string payloads belongs to encoding/json (codec axioms; the colour leg uses a concrete alphabet incl. quotes, <>&, control and non-BMP characters through the real codec); more than 3 hunks, more than 2 removes/adds per hunk, more than two context lines (two only in the CTX2 runs)",
+        "covers": ["c02.lib.none", "c02.lib.set", "c02.lib.multiset", "c02.lib.setkeys", "c02.lib.merge", "c02.hunks", "c02.color", "c02.big"],
+        "outside": "character-level escaping of string payloads belongs to encoding/json (codec axioms; the colour leg uses a concrete alphabet incl. quotes, <>&, control and non-BMP characters through the real codec); more than 3 hunks, more than 2 removes/adds per hunk, more than two context lines (two only in the CTX2 runs); long lines other than one string payload of 4092, 65531 or 65532 bytes (rendered line just below / at the 64 KiB default buffer of bufio.Scanner)",
     },
     "C15": {
         "quick": [
@@ -194,15 +200,17 @@ CHECKS = {
             {"pkg": "v2", "entries": ["VerifC08Keyed"], "params": {"N": 3, "IDKINDS": 0, "MIXED": 1}},
             {"pkg": "v2", "entries": ["VerifC08Diff"], "params": {"N": 2}},
             {"pkg": "v2", "entries": ["VerifC08Members"], "params": {"N": 1}},
+            {"pkg": "v2", "entries": ["VerifC08Keyed2"], "params": {"N": 2}},
         ],
         "thorough": [
+            {"pkg": "v2", "entries": ["VerifC08Keyed2"], "params": {"N": 3}},
             {"pkg": "v2", "entries": ["VerifC08Hunk"], "params": {"N": 3, "RM": 2, "AD": 2}},
             {"pkg": "v2", "entries": ["VerifC08Keyed"], "params": {"N": 3}},
             {"pkg": "v2", "entries": ["VerifC08Keyed"], "params": {"N": 3, "IDKINDS": 1, "MIXED": 1}},
             {"pkg": "v2", "entries": ["VerifC08Diff"], "params": {"N": 2}},
             {"pkg": "v2", "entries": ["VerifC08Members"], "params": {"N": 1}},
         ],
-        "covers": ["c08.hunk.set", "c08.hunk.multiset", "c08.hunk.nonarray", "c08.keyed", "c08.diff.set", "c08.diff.multiset", "c08.members.set", "c08.members.multiset"],
+        "covers": ["c08.hunk.set", "c08.hunk.multiset", "c08.hunk.nonarray", "c08.keyed", "c08.keyed2", "c08.diff.set", "c08.diff.multiset", "c08.members.set", "c08.members.multiset"],
         "outside": "more than N members, more than 2 listed removals/additions, members other than numbers, pairs of numbers and objects holding a pair (keyed: objects {id,v}), several members matching one key (assumed away), FNV collisions",
     },
     "C06": {
@@ -228,8 +236,12 @@ CHECKS = {
             {"pkg": "v2", "entries": ["VerifC07Set"], "params": {"N": 1, "NESTED": 1}},
             {"pkg": "v2", "entries": ["VerifC07Keyed"], "params": {"N": 1, "M": 1}},
             {"pkg": "v2", "entries": ["VerifC07MergeNulls"], "params": {}},
+            {"pkg": "v2", "entries": ["VerifC07Deep"], "params": {"DEPTH": 7}},
+            {"pkg": "v2", "entries": ["VerifC07Deep"], "params": {"DEPTH": 3, "CHAINKINDS": 2}},
         ],
         "thorough": [
+            {"pkg": "v2", "entries": ["VerifC07Deep"], "params": {"DEPTH": 9, "KEYS": 3}},
+            {"pkg": "v2", "entries": ["VerifC07Deep"], "params": {"DEPTH": 5, "CHAINKINDS": 2}},
             {"pkg": "v2", "entries": ["VerifC07List"], "params": {"N": 3}},
             {"pkg": "v2", "entries": ["VerifC07Obj", "VerifC07Merge"], "params": {"N": 2, "INNER": 2}},
             {"pkg": "v2", "entries": ["VerifC07Set"], "params": {"N": 3}},
@@ -238,7 +250,7 @@ CHECKS = {
             {"pkg": "v2", "entries": ["VerifC07Keyed"], "params": {"N": 1, "M": 2}},
             {"pkg": "v2", "entries": ["VerifC07MergeNulls"], "params": {}},
         ],
-        "covers": ["c07.list.root", "c07.list.key", "c07.obj", "c07.set.set", "c07.set.multiset", "c07.merge", "c07.keyed", "c07.mergenulls"],
+        "covers": ["c07.list.root", "c07.list.key", "c07.obj", "c07.set.set", "c07.set.multiset", "c07.merge", "c07.keyed", "c07.mergenulls", "c07.deep.strict", "c07.deep.merge"],
         "outside": "arrays longer than N; FNV collisions",
     },
     "C13": {
@@ -322,6 +334,8 @@ CHECKS = {
             {"pkg": "v2", "entries": ["VerifC01Deep"], "params": {"DEPTH": 3, "CHAINKINDS": 2}},
             {"pkg": "v2", "entries": ["VerifC01Seq"], "params": {"N": 3}},
             {"pkg": "v2", "entries": ["VerifC01Kinds"], "params": {"N": 2, "OPTS": 1}},
+            {"pkg": "v2", "entries": ["VerifC01Perm"], "params": {"N": 2, "M": 0}},
+            {"pkg": "v2", "entries": ["VerifC01Perm"], "params": {"N": 1, "M": 1}},
         ],
         "thorough": [
             {"pkg": "v2", "entries": ["VerifC01Flat"], "params": {"N": 3, "CLONE": 1}},
@@ -335,6 +349,8 @@ CHECKS = {
             {"pkg": "v2", "entries": ["VerifC01Seq"], "params": {"N": 3, "OPTS": 0x17}},
             {"pkg": "v2", "entries": ["VerifC01Nest"], "params": {"N": 3, "OPTS": 1, "WRAPS": 1}},
             {"pkg": "v2", "entries": ["VerifC01Kinds"], "params": {"N": 2, "OPTS": 7}},
+            {"pkg": "v2", "entries": ["VerifC01Perm"], "params": {"N": 2, "M": 1}},
+            {"pkg": "v2", "entries": ["VerifC01Perm"], "params": {"N": 1, "M": 2}},
         ],
         "covers": ["c01.flat.none", "c01.flat.set", "c01.flat.multiset", "c01.flat.merge", "c01.flat.set+merge", "c01.flat.multiset+merge",
                    "c01.obj.none", "c01.obj.merge", "c01.keyed.setkeys", "c01.void.none", "c01.mixed.set", "c01.nest.none", "c01.nest.multiset", "c01.deep.none"],
